@@ -8,8 +8,8 @@ UNITS_LOCAL = {"C08": [
     Unit("histories", ["harness/C08_histories.cpp"],
          flags=ASAN, env=_ENV, opt="-O1", engine="seqmc",
          budget={"quick": 100, "thorough": 1000},
-         rule=("every history of 6 (thorough 7) enabled operations over a pool of 2 heap objects (obj0 a Base, obj1 a Derived:Base, both counting destructor runs) and 3 heap-allocated handle slots "
-               "(h0,h1 IntrusivePtr<Base>, h2 Ref<Derived>), each replayed on fresh objects inside a forked ASan+UBSan shard (every shorter history is a checked prefix); alphabet of 45: "
+         rule=("every history of 1..6 (thorough 1..7) enabled operations, shortest first, over a pool of 2 heap objects (obj0 a Base, obj1 a Derived:Base, both counting destructor runs) and 3 heap-allocated handle slots "
+               "(h0,h1 IntrusivePtr<Base>, h2 Ref<Derived>), each replayed on fresh objects inside a forked ASan+UBSan shard; alphabet of 45: "
                "create object k, creator refDec / refInc (creator holds 0..2 references), per slot default-construct, construct from raw k / from null raw, copy-construct from the other Base slot, move-construct, "
                "converting construct Base<-Derived handle, copy-assign (incl. to itself), move-assign (incl. to itself), assign converted Derived handle, assign raw k, assign null, destroy slot. "
                "After every step: destructor-run counters say destroyed exactly once and exactly at the step where the reference model (creator references + handles pointing at the object) reached 0, "
@@ -17,7 +17,7 @@ UNITS_LOCAL = {"C08": [
                "Teardown of every history (destroy remaining handles, release creator references) is checked the same way and must destroy everything. "
                "Two histories are distinct when their operation sequences differ; distinct outcomes = distinct (operation, resulting model state, which objects died)."),
          assumptions=["the creator only calls refDec for references it holds (creation or its own refInc); releasing somebody else's reference is misuse outside the statement",
-                      "moving a handle onto itself may leave it null or unchanged (the statement fixes neither); the enumeration follows 'null', which is what the tree does - a tree that keeps the object is reported as a cut history, not a violation",
+                      "moving a handle onto itself may leave it null or unchanged (the statement fixes neither); likewise a moved-from handle may be null or keep its object as long as useCount() agrees; the enumeration follows 'null', which is what the tree does - a tree that keeps the object is reported as a cut history, not a violation",
                       "objects do not contain handles (move-assignment from a handle stored inside the object being released is outside the statement)",
                       "comparisons are checked between the two IntrusivePtr<Base> slots and of the Derived handle with itself"]),
 ]}
